@@ -361,6 +361,9 @@ func TestC10(t *testing.T) {
 		}
 	}
 
+	// ---------------- (r) the same over real links with a segmenting transport.
+	realLinks(t, rep, env, &evals, &nontrivial, mine)
+
 	// ---------------- (a4) packet sizes around the pooled-buffer size classes across a relay.
 	if mine() {
 		synctest.Test(t, func(t *testing.T) {
